@@ -380,3 +380,23 @@ func (c *Chain) InBlock(f func(ctx sdk.Context) error) *Outcome {
 	o.Diff = c.DiffSnap(pre, c.Snapshot())
 	return o
 }
+
+// WrapChain installs the taps on a TestChain that was built outside NewWorld (e.g. a chain started from an
+// exported genesis). The chain is not registered with the coordinator's chain map.
+func WrapChain(w *World, tc *ibctesting.TestChain, sim *simapp.SimApp, name string) *Chain {
+	c := &Chain{TestChain: tc, W: w, Idx: -1, Name: name, Watch: DefaultWatch, Sim: sim, noise: map[string]struct{}{}}
+	tc.TB = PanicTB{w.T}
+	c.Rec = installRecorder(c)
+	tc.SendMsgsOverride = func(msgs ...sdk.Msg) (*abci.ExecTxResult, error) {
+		o := c.Deliver(c.DefaultSender(), msgs...)
+		return o.Res, o.Err
+	}
+	return c
+}
+
+// CopyNoise makes this chain ignore the same empty-block noise keys as another one.
+func (c *Chain) CopyNoise(from *Chain) {
+	for k := range from.noise {
+		c.noise[k] = struct{}{}
+	}
+}
